@@ -23,6 +23,10 @@ def run(ctx) -> None:
 
     ctx.guard("C19.fresh-result", memo_rule, "C19.fresh-result", ("robotools/utils.py",))
     ctx.guard("C19.cycle", _buffers)
+    # the returned IDs are the given ones, character for character (no fixed-width string dtype anywhere on the way)
+    from . import c08
+
+    ctx.reuse("C19.cycle", c08.id_width)
     from .common import arg_mutation_rule
 
     ctx.guard("C19.fresh-result", arg_mutation_rule, "C19.fresh-result", ("get_trough_wells",),
